@@ -85,6 +85,16 @@ theorem faithful_moveHome (S : Segmenter) (U : UData) : MoveOKB (LB.moveHome S U
       obtain ⟨rfl, rfl, rfl⟩ := h
       exact ⟨rfl, fun _ => rfl⟩
 
+theorem faithful_moveToFirstPrint (S : Segmenter) (U : UData) : MoveOKB (LB.moveToFirstPrint S U) := by
+  intro lb r lb' ns _ h
+  unfold LB.moveToFirstPrint at h
+  cases hs : LB.firstPrint S U lb with
+  | error e => simp [LM.bind_apply, LM.ro, hs] at h
+  | ok p =>
+    simp [LM.bind_apply, LM.ro, hs, LM.get, LM.setPos] at h
+    obtain ⟨rfl, rfl, _⟩ := h
+    exact ⟨rfl, fun hr => by simpa using hr⟩
+
 theorem faithful_moveEnd (S : Segmenter) (U : UData) : MoveOKB (LB.moveEnd S U) := by
   intro lb r lb' ns _ h
   unfold LB.moveEnd at h
@@ -266,10 +276,10 @@ theorem nc_stopTail {m : LM Bool} (hm : NC id m) :
   NC.bind_tail (chg := id) hm (fun a => ⟨a, rfl, HushRet.bind_quiet (Hush.notify _) fun _ => HushRet.pure a⟩)
 
 /-- `kill` for every movement whose "nothing killed" paths touch nothing at all -/
-theorem nc_kill (S : Segmenter) (U : UData) (mvt : Movement) (h1 : mvt ≠ .wholeLine) (h2 : mvt ≠ .wholeBuffer) :
-    NC id (LB.kill S U mvt) := by
+theorem nc_kill (S : Segmenter) (U : UData) (mvt : Movement) (h1 : mvt ≠ .wholeLine) (h2 : mvt ≠ .wholeBuffer)
+    (h3 : mvt ≠ .viFirstPrint) : NC id (LB.kill S U mvt) := by
   unfold LB.kill
-  cases mvt <;> first | exact absurd rfl h1 | exact absurd rfl h2 | skip
+  cases mvt <;> first | exact absurd rfl h1 | exact absurd rfl h2 | exact absurd rfl h3 | skip
   all_goals simp only [LM.pure_bind', ↓reduceIte, Bool.false_eq_true]
   all_goals first
     | (refine NC.bind_quiet (Hush.notify _) fun _ => nc_stopTail ?_)
@@ -405,12 +415,40 @@ theorem editOK_kill_wholeLine (S : Segmenter) (U : UData) : EditOK (LB.kill S U 
       have := nc_killLine S U _ _ _ _ hk rfl
       exact ⟨this.1, by rw [this.2]; exact hpe⟩
 
+/-- `d^` (D46): it answers `false` only when the cursor already is on the first non-blank of the line -/
+theorem nc_kill_viFirstPrint (S : Segmenter) (U : UData) : NC id (LB.kill S U .viFirstPrint) := by
+  intro lb r lb' ns h hr
+  have hr' : r = false := by simpa using hr
+  subst hr'
+  cases hs : LB.firstPrint S U lb with
+  | error e => simp [LB.kill, LM.bind_apply, LM.notify, LM.ro, hs] at h
+  | ok p =>
+    by_cases h1 : p < lb.pos
+    · have hne : (p != lb.pos) = true := by simp; omega
+      cases hd : LB.drain p lb.pos .backward lb with
+      | error e => simp [LB.kill, LM.bind_apply, LM.notify, LM.ro, hs, LM.get, h1, hd] at h
+      | ok v =>
+        obtain ⟨y, l1, n1⟩ := v
+        simp [LB.kill, LM.bind_apply, LM.notify, LM.ro, hs, LM.get, h1, hd, LM.setPos, hne] at h
+    · by_cases h2 : lb.pos < p
+      · have hne : (p != lb.pos) = true := by simp; omega
+        cases hd : LB.drain lb.pos p .forward lb with
+        | error e => simp [LB.kill, LM.bind_apply, LM.notify, LM.ro, hs, LM.get, h1, h2, hd] at h
+        | ok v =>
+          obtain ⟨y, l1, n1⟩ := v
+          simp [LB.kill, LM.bind_apply, LM.notify, LM.ro, hs, LM.get, h1, h2, hd, hne] at h
+      · simp [LB.kill, LM.bind_apply, LM.notify, LM.ro, hs, LM.get, h1, h2] at h
+        obtain ⟨_, rfl, _⟩ := h
+        exact ⟨rfl, rfl⟩
+
 theorem faithful_kill (S : Segmenter) (U : UData) (mvt : Movement) : EditOK (LB.kill S U mvt) id := by
   by_cases h1 : mvt = .wholeLine
   · subst h1; exact editOK_kill_wholeLine S U
   · by_cases h2 : mvt = .wholeBuffer
     · subst h2; exact editOK_kill_wholeBuffer S U
-    · exact (nc_kill S U mvt h1 h2).editOK
+    · by_cases h3 : mvt = .viFirstPrint
+      · subst h3; exact (nc_kill_viFirstPrint S U).editOK
+      · exact (nc_kill S U mvt h1 h2 h3).editOK
 
 /-! ### Undo that undid nothing -/
 
@@ -500,6 +538,7 @@ theorem faithful_yankPop (S : Segmenter) (U : UData) (k : Nat) (t : Text) :
 theorem lbFaithful (S : Segmenter) (U : UData) : LBFaithful S U where
   moveHome := faithful_moveHome S U
   moveEnd := faithful_moveEnd S U
+  moveToFirstPrint := faithful_moveToFirstPrint S U
   moveBackward := faithful_moveBackward S U
   moveForward := faithful_moveForward S U
   moveToPrevWord := faithful_moveToPrevWord S U
